@@ -39,7 +39,9 @@ hooks, exec failures, deaths at every kernel-call boundary, reloads, `kill` / `s
   every run without such requests, every SIGKILL entry `sig p 9 st ""` of the log is preceded by an
   earlier signal entry for `p` — the daemon escalates, it never opens with SIGKILL —, the exemptions being
   a watcher with `stop_signal = 9`, a consulted `before_signal` hook, and pids that are not children of the
-  daemon (a worker's own children).  The four requests are exempt because they may ask for signal 9
+  daemon (a worker's own children); for workers — pids with a `Process` object, which are children of the
+  daemon for ever (`C03_run_workers_are_daemon_children`) — the last exemption drops out
+  (`C03_run_sigkill_to_worker_never_first_in_step`, `C03_run_sigkill_to_worker_never_first`).  The four requests are exempt because they may ask for signal 9
   themselves (`C03_counterexample_requested_sigkill_is_first`).
 
 Which signals are meant: the escalation is the call `sendSignalProcess u p 9 true` in `killFinish`
@@ -295,8 +297,7 @@ theorem C03_run_sigkill_never_first_signal_in_step (cfg : List Watcher) (behavs 
     (∃ u, HookCalled (step (run (initState cfg behavs warm) ops) op) u "before_signal") ∨
     (step (run (initState cfg behavs warm) ops) op).k.NDC p := by
   have h0 := C03_run_signal_invariant cfg behavs warm hcfg ops
-  have hp := posInv_run _ ops (posInv_init cfg behavs warm)
-  have h1 := stepM_si_j op hop _ (h0.enter hp)
+  have h1 := stepM_si_j op hop _ h0.enter
   exact (h1.just _ rfl).log pre post p st hl hn
 
 /-- **SIGKILL is never the first signal — whole runs**: along every run none of whose stimuli is a
@@ -313,7 +314,7 @@ theorem C03_run_sigkill_never_first_signal (cfg : List Watcher) (behavs : List B
     (∃ w ∈ cfg, w.stopSignal = 9) ∨
     (∃ u, HookCalled (run (initState cfg behavs warm) ops) u "before_signal") ∨
     (run (initState cfg behavs warm) ops).k.NDC p := by
-  have h0 := (si_init cfg behavs warm hcfg).enter (posInv_init cfg behavs warm)
+  have h0 := (si_init cfg behavs warm hcfg).enter
   have h1 := run_si_j _ ops hsafe h0
   rcases (h1.just _ rfl).log pre post p st hl (Nat.zero_le _) with h | ⟨w, hw, h9⟩ | h | h
   · exact Or.inl h
@@ -321,6 +322,56 @@ theorem C03_run_sigkill_never_first_signal (cfg : List Watcher) (behavs : List B
     exact Or.inr (Or.inl ⟨w0, hw0, he.trans h9⟩)
   · exact Or.inr (Or.inr (Or.inl h))
   · exact Or.inr (Or.inr (Or.inr h))
+
+/-- **workers are children of the daemon, for ever**: in every reachable state every pid that has a
+    `Process` object (every worker the daemon ever spawned) stands in the process table with the daemon
+    as its parent — no death re-parents it, the daemon itself has no entry in the table.  (A worker's
+    own child processes never have a `Process` object.) -/
+theorem C03_run_workers_are_daemon_children (cfg : List Watcher) (behavs : List Behav) (warm : Nat)
+    (hcfg : ∀ w ∈ cfg, w.pids = []) (ops : List Op) (p : Nat) (hp : HasObj (run (initState cfg behavs warm) ops) p) :
+    (run (initState cfg behavs warm) ops).k.DC p := by
+  obtain ⟨o, ho, rfl⟩ := List.mem_map.mp hp
+  exact (C03_run_signal_invariant cfg behavs warm hcfg ops).wpar o ho
+
+/-- … so for a **worker** (a pid with a `Process` object) the log-level statements read without the last
+    alternative: in a step that is not a `signal` / `kill` / `set` / `add` request, a SIGKILL to a worker
+    is preceded in the log by an earlier signal to it, unless some watcher's `stop_signal` is 9 or a
+    `before_signal` hook has been consulted. -/
+theorem C03_run_sigkill_to_worker_never_first_in_step (cfg : List Watcher) (behavs : List Behav) (warm : Nat)
+    (hcfg : ∀ w ∈ cfg, w.pids = []) (ops : List Op) (op : Op) (hop : OpSafe op)
+    (pre post : List Obs) (p : Nat) (st : PState)
+    (hl : (step (run (initState cfg behavs warm) ops) op).log = pre ++ Obs.sig p 9 st "" :: post)
+    (hn : (run (initState cfg behavs warm) ops).log.length ≤ pre.length)
+    (hw : HasObj (step (run (initState cfg behavs warm) ops) op) p) :
+    (∃ sg st', Obs.sig p sg st' "" ∈ pre) ∨
+    (∃ w ∈ (run (initState cfg behavs warm) ops).ws, w.stopSignal = 9) ∨
+    (∃ u, HookCalled (step (run (initState cfg behavs warm) ops) op) u "before_signal") := by
+  rcases C03_run_sigkill_never_first_signal_in_step cfg behavs warm hcfg ops op hop pre post p st hl hn with h | h | h | h
+  · exact Or.inl h
+  · exact Or.inr (Or.inl h)
+  · exact Or.inr (Or.inr h)
+  · exfalso
+    have hd := C03_run_workers_are_daemon_children cfg behavs warm hcfg (ops ++ [op]) p (by
+      simpa [run, List.foldl_append] using hw)
+    have : (run (initState cfg behavs warm) (ops ++ [op])).k = (step (run (initState cfg behavs warm) ops) op).k := by
+      simp [run, List.foldl_append]
+    rw [this] at hd
+    exact hd.not_ndc h
+
+/-- the same along whole runs without `signal` / `kill` / `set` / `add` requests -/
+theorem C03_run_sigkill_to_worker_never_first (cfg : List Watcher) (behavs : List Behav) (warm : Nat)
+    (hcfg : ∀ w ∈ cfg, w.pids = []) (ops : List Op) (hsafe : ∀ op ∈ ops, OpSafe op)
+    (pre post : List Obs) (p : Nat) (st : PState)
+    (hl : (run (initState cfg behavs warm) ops).log = pre ++ Obs.sig p 9 st "" :: post)
+    (hw : HasObj (run (initState cfg behavs warm) ops) p) :
+    (∃ sg st', Obs.sig p sg st' "" ∈ pre) ∨
+    (∃ w ∈ cfg, w.stopSignal = 9) ∨
+    (∃ u, HookCalled (run (initState cfg behavs warm) ops) u "before_signal") := by
+  rcases C03_run_sigkill_never_first_signal cfg behavs warm hcfg ops hsafe pre post p st hl with h | h | h | h
+  · exact Or.inl h
+  · exact Or.inr (Or.inl h)
+  · exact Or.inr (Or.inr h)
+  · exact absurd h (C03_run_workers_are_daemon_children cfg behavs warm hcfg ops p hw).not_ndc
 
 /-! ## concrete runs -/
 
